@@ -366,3 +366,78 @@ func VerifC07Truth() {
 	verifAssert(ok, "truth value is a bool")
 	verifAssert(bool(g) == (av.Sign() != 0), "truth value is value != 0")
 }
+
+// ---- power: a ** e and pow(a, e, m) ----
+//
+// The exponent is one of -1, 0, 1, 2, 3 (as a word or as an arbitrary-precision
+// value; larger exponents are outside the model of big.Int.Exp), the base and
+// the modulus are symbolic. Oracle: repeated exact multiplication, then
+// Python's modulo (result carries the sign of the modulus; a zero modulus is a
+// ValueError; a negative exponent with a modulus is a TypeError in 3.4).
+
+func c07Pow(inplace, withMod bool, bits int) {
+	a, av := c07Operand("a", bits, 3)
+	ek := int64(verifChoice("e", 5)) - 1
+	var e Object
+	if verifChoice("e_rep", 2) == 0 {
+		e = Int(ek)
+	} else {
+		e = (*BigInt)(big.NewInt(ek))
+	}
+	var m Object = None
+	var mv *big.Int
+	if withMod {
+		m, mv = c07Operand("m", bits, 3)
+	} else {
+		verifAssume(ek >= 0) // a negative exponent gives a float: C15
+	}
+	var got Object
+	var err error
+	if inplace {
+		got, err = IPow(a, e, m)
+	} else {
+		got, err = Pow(a, e, m)
+	}
+	verifReach("called")
+	if withMod && ek < 0 {
+		verifAssert(err != nil && c07ErrIs(err, TypeError), "negative exponent with a modulus raises TypeError")
+		return
+	}
+	if withMod && mv.Sign() == 0 {
+		verifAssert(err != nil && c07ErrIs(err, ValueError), "pow() with a zero modulus raises ValueError")
+		return
+	}
+	verifAssert(err == nil, "no error")
+	want := big.NewInt(1)
+	for i := int64(0); i < ek; i++ {
+		want = new(big.Int).Mul(want, av)
+	}
+	if withMod {
+		am := new(big.Int).Abs(mv)
+		r := new(big.Int).Mod(want, am) // Euclidean: 0 <= r < |m|
+		if mv.Sign() < 0 && r.Sign() != 0 {
+			r.Sub(r, am)
+		}
+		want = r
+	}
+	verifAssert(c07Same(got, want), "exact result")
+	verifAssert(c07Unchanged(a, av), "base unchanged")
+	if withMod {
+		verifAssert(c07Unchanged(m, mv), "modulus unchanged")
+	}
+}
+
+//verif:property C07
+//verif:encoding int
+//verif:expect called
+func VerifC07Pow() { c07Pow(false, false, verifBound(64, 100)) }
+
+//verif:property C07
+//verif:encoding int
+//verif:expect called
+func VerifC07IPow() { c07Pow(true, false, verifBound(64, 100)) }
+
+//verif:property C07
+//verif:encoding int
+//verif:expect called
+func VerifC07PowMod() { c07Pow(false, true, verifBound(64, 100)) }
